@@ -33,16 +33,30 @@ ASSUMPTIONS = [
     "over {A,K,P,M} the patterns [KR] and K have the same sites; K is therefore explored one length less than [KR]",
 ]
 
-PATTERNS = {"[KR]": "AKPM", "[KR](?!P)": "AKPM", "K": "AKPM", "(?=D)": "ADM", "(?=M)": "AMK"}
+PATTERNS = {"[KR]": "AKPM", "[KR](?!P)": "AKPM", "K": "AKPM", "(?=D)": "ADM", "(?=M)": "AMK",
+            # double digest: both alternatives can fire at the same position ("...KD...")
+            "[KR]|(?=D)": "AKD",
+            # compiled patterns that carry flags (lost if the pattern is re-compiled from its text)
+            "I:[kr]": "AKPM", "X:[KR] (?!P)  # trypsin, not before proline": "AKPM"}
 MC = (0, 1, 2, 3)
 BUCKETS = (1 << 20) - 1
 SELFCHECK_LEN = 4
 
 
+FLAGS = {"I:": re.IGNORECASE, "X:": re.VERBOSE}
+
+
+def enzyme_of(pattern, compiled):
+    """Pattern text, compiled pattern, or - for 'I:'/'X:' prefixed entries - a pattern compiled WITH flags."""
+    if pattern[:2] in FLAGS:
+        return re.compile(pattern[2:], FLAGS[pattern[:2]])
+    return re.compile(pattern) if compiled else pattern
+
+
 def _digest(case):
     from mokapot.parsers.fasta import digest
 
-    enz = re.compile(case["pattern"]) if case["compiled"] else case["pattern"]
+    enz = enzyme_of(case["pattern"], case["compiled"])
     return digest(case["seq"], enzyme_regex=enz, missed_cleavages=case["mc"],
                   clip_nterm_methionine=case["clip"], min_length=case["min"], max_length=case["max"],
                   semi=case["semi"])
@@ -105,7 +119,7 @@ def check_case(case, acc):
     except Exception as e:
         report(acc, f"digest-raises:{type(e).__name__}", f"digest raised {type(e).__name__}: {e}", case)
         return None
-    must, allowed = ref_digest(case["seq"], case["pattern"], case["mc"], case["min"], case["max"],
+    must, allowed = ref_digest(case["seq"], enzyme_of(case["pattern"], True), case["mc"], case["min"], case["max"],
                                case["clip"], case["semi"])
     judge(case, got, must, allowed, acc)
     if isinstance(got, (set, frozenset)):
@@ -119,8 +133,8 @@ def check_case(case, acc):
 def check_sequence(digest, seq, pattern, compiled, acc):
     """Every parameter combination of one (sequence, pattern)."""
     n = len(seq)
-    enz = re.compile(pattern) if compiled else pattern
-    sites = ref_sites(seq, pattern)
+    enz = enzyme_of(pattern, compiled)
+    sites = ref_sites(seq, enzyme_of(pattern, True))
     whole = {seq}
     grid = {}
 
@@ -150,7 +164,7 @@ def check_sequence(digest, seq, pattern, compiled, acc):
                                     continue
                         if n <= SELFCHECK_LEN:
                             acc.count("reference_selfchecks")
-                            if ref_digest_plain(seq, pattern, mc, lo, hi, clip, semi) != (
+                            if ref_digest_plain(seq, enzyme_of(pattern, True), mc, lo, hi, clip, semi) != (
                                     must, must | select(may_items, lo, hi)):
                                 report(acc, "harness-reference-disagrees", "fast and literal reference differ",
                                        case_of(mc, clip, semi, lo, hi))
@@ -213,7 +227,10 @@ def run(ctx):
         items += _items(n, ("(?=D)",), False)
         if n <= deep_ad - 2:  # zero-width match at position 0 of a sequence starting with M (N-terminal clipping)
             items += _items(n, ("(?=M)",), False)
+        if n <= deep_ad - 2:
+            items += _items(n, ("[KR]|(?=D)",), False)
         if n <= comp:
+            items += _items(n, ("I:[kr]", "X:[KR] (?!P)  # trypsin, not before proline"), True)
             items += _items(n, akpm, True) + _items(n, ("(?=D)",), True)
     ctx.pmap(worker, items, chunksize=1)
     ctx.exhaustive = True
